@@ -893,7 +893,7 @@ def persistent_kinds(dag, script):
     return kinds
 
 
-def driver_source(g, dag, script, ncalls):
+def driver_source(g, dag, script, ncalls, heap_state=False):
     nm = g.cg.name_manager
     kinds = persistent_kinds(dag, script)
     phases = sorted(dag.phases)
@@ -924,7 +924,18 @@ def driver_source(g, dag, script, ncalls):
             init_args.append(f"{fn}=in_{fn}")
         else:
             init_args.append(f"{fn}={fnum(val)}")
-    A("  stp => st")
+    if heap_state:
+        # the state object lives in heap memory that is not zero (ASan fills fresh blocks with 0xbe; without it a
+        # dirtied block is recycled): pointer members have no defined association status before initialize
+        A("  block")
+        A("    integer(1), allocatable :: dirt(:)")
+        A("    allocate(dirt(8192))")
+        A("    dirt = 90_1")
+        A("    deallocate(dirt)")
+        A("  end block")
+        A("  allocate(stp)")
+    else:
+        A("  stp => st")
     for sname, v in sorted(script["state"].items()):
         ir = "<state>" + sname
         if ir not in kinds:
@@ -978,6 +989,8 @@ def driver_source(g, dag, script, ncalls):
         A("    end if")
     A("  end do")
     A("  call vf_shutdown(dagrt_state=stp)")
+    if heap_state:
+        A("  deallocate(stp)")
     for sname, v in sorted(script["state"].items()):
         if kinds.get("<state>" + sname) == "st":
             A(f"  deallocate(in_{nm.name_global('<state>' + sname)}%q)")
@@ -1149,7 +1162,8 @@ def reference_defined(script, ncalls):
     return rs, None
 
 
-def execute(script, flags=None, env=None, trace=False, valgrind=False, keep_dir=None, timeout=60, instrument=False):
+def execute(script, flags=None, env=None, trace=False, valgrind=False, keep_dir=None, timeout=60, instrument=False,
+            heap_state=False):
     obs = Obs()
     ncalls = script.get("ncalls", 3)
     rs, why = reference_defined(script, ncalls)
@@ -1170,7 +1184,7 @@ def execute(script, flags=None, env=None, trace=False, valgrind=False, keep_dir=
         obs.gen_error = (type(ex).__name__, str(ex)[:300], traceback.format_exc()[-1200:])
         return obs
     obs.code = g.code
-    obs.driver = driver_source(g, dag, script, ncalls)
+    obs.driver = driver_source(g, dag, script, ncalls, heap_state=heap_state)
     flags = list(flags if flags is not None else fort.SAN_FLAGS)
     with fort.Scratch("vf-ftn-") as d:
         srcs = [("vfmod.f90", g.code), ("driver.f90", obs.driver)]
